@@ -131,6 +131,8 @@ class SymArray(np.ndarray):
         dt = np.dtype(dtype) if dtype not in (float, complex, int) else np.dtype(dtype)
         if dt.kind in "fc" or dt == object:
             return self.copy()
+        if dt.kind in "iu" and getattr(core.ctx(), "symbolic_int_arrays", False):
+            return self.copy()          # integer-valued symbolic terms (floor(...)) stay symbolic
         if dt.kind in "iu":
             return np.array([int(x) for x in self.reshape(-1)], dtype=dt).reshape(self.shape)
         if dt.kind == "b":
